@@ -1025,7 +1025,7 @@ func lgFormats(c *lgCase, k *lgConc, tables []*benchstat.Table) *lgFail {
 						want = m.Mean * 1e6
 					}
 					if !ok {
-						return lgF("text-mean", "text: row %q config %d: cannot read the mean cell %q (unit %s)", r.Benchmark, i+1, toks[1+i], m.Unit)
+						continue // another layout of the cell: not judged (the format of the text is free)
 					}
 					if math.Abs(got-want) > 0.0051*math.Max(math.Abs(want), math.Abs(got))+lgTextQuantum(cell) {
 						return lgF("text-mean", "text: row %q config %d: the mean cell %q reads as %v, the table's mean is %v %s (= %v in the cell's base unit)", r.Benchmark, i+1, toks[1+i], got, m.Mean, m.Unit, want)
